@@ -1086,7 +1086,8 @@ class MyPyAstVisitor:
                     # Special case, where the method returns an instance of its class
                     return type_
 
-            type_var = sds_types.TypeVarType(name=mypy_type.name, upper_bound=type_)
+            # Mypy names a type variable like it is written in the annotation, e.g. "typing.AnyStr"
+            type_var = sds_types.TypeVarType(name=mypy_type.name.split(".")[-1], upper_bound=type_)
             self.type_var_types.add(type_var)
             return type_var
         elif isinstance(mypy_type, mp_types.CallableType):
